@@ -616,6 +616,9 @@ impl Core {
     ) -> Result<(), String> {
         if let Some(rules_engine) = &context.settings.rules_engine {
             if let Some(ip) = client_ip {
+                // An IPv4 peer of a dual-stack listener shows up as `::ffff:a.b.c.d`;
+                // the rules are written for the address the peer actually has
+                let ip = ip.to_canonical();
                 let rule_result = rules_engine.evaluate(&ip, client_random);
                 match rule_result {
                     rules::RuleEvaluation::Deny => {
